@@ -954,6 +954,8 @@ func propC10(c *Check) {
 	ruleR10_5(c)
 	ruleR08_4(c)
 	ruleR03_6(c)
+	// MANIFEST rewrite: write → Sync → Close → Rename → syncDir (an unsynced file renamed into place is empty after power loss)
+	ruleR08_8(c)
 }
 
 // ---- C17 ----
